@@ -39,6 +39,8 @@ pub struct PpCfg {
     pub file_no_final_newline: bool,
     /// macro bodies may start with an escaped identifier
     pub body_escaped_first: bool,
+    /// ordinary string literals in bodies may hold an escaped quote or end in a backtick
+    pub body_string_corners: bool,
 }
 
 impl PpCfg {
@@ -64,6 +66,7 @@ impl PpCfg {
             include_via_body: false,
             file_no_final_newline: false,
             body_escaped_first: false,
+            body_string_corners: false,
         }
     }
 }
@@ -458,7 +461,14 @@ impl<'a, 'b> G<'a, 'b> {
                         // ordinary string naming a formal: must stay untouched
                         let f = if nf > 0 { formal_names[self.t.below(nf)] } else { "x" };
                         let k = self.uid();
-                        b.push(BodyTok::Str(format!("\"{} s{} {}\"", f, k, f)));
+                        let lit = match if self.cfg.body_string_corners { self.t.below(4) } else { 0 } {
+                            // an escaped quote inside the literal, the formal's name behind it
+                            1 => format!("\"say \\\"{}\\\" s{} {}\"", f, k, f),
+                            // a backtick directly in front of the closing quote
+                            2 => format!("\"{} tick{} `\"", f, k),
+                            _ => format!("\"{} s{} {}\"", f, k, f),
+                        };
+                        b.push(BodyTok::Str(lit));
                         b.push(BodyTok::Sp);
                         b.push(BodyTok::Tok(format!("b{}", self.uid())));
                     }
